@@ -50,8 +50,11 @@ type Prop struct {
 	Rule        string // how cases are enumerated / what makes one non-trivial
 	Assumptions []string
 	Harnesses   []Harness
-	// NeedsRace: the property additionally runs a free-running -race pass.
+	// Race runs in the parent after the shards (C12: the free-running -race pass).
 	Race func(c *Ctx)
+	// Post runs in the parent after the shards (C11: conformance of the
+	// instrumented build against the repository's own suite).
+	Post func(c *Ctx)
 }
 
 var registry = map[string]*Prop{}
